@@ -36,7 +36,9 @@ func opLabels(n *shape.Node) []string {
 // rotation. Used only to classify findings.
 func underestimating(n *shape.Node) bool {
 	return n.Has("nuscale2", "nuscale3", "twist", "scaleext", "scaletwist", "loft", "screw", "revolvetheta",
-		"extrude", "extround", "diff2", "diff3", "isect2", "isect3", "cut2", "cut3", "slice2")
+		"extrude", "extround", "diff2", "diff3", "isect2", "isect3", "cut2", "cut3", "slice2",
+		// GearRack2D evaluates max(tooth profile, |x| - length): a max-composition inside a leaf
+		"gearrack")
 }
 
 // culprit finds the bottom-most node whose own built object is negative at the
